@@ -180,6 +180,9 @@ def run(ctx):
                      "path: to a downstream, a user closure, or a buffer; intentional discards are table entries", floor=24)
     from p_C11 import linear_rule
     linear_rule(ctx, c, R_LIN, item_groups(c, push_impls), "C12")
+    R_TP = ctx.rule("C12.takepend", "a value taken out of a combinator's state (buffer.take(), mem::replace) is never dropped on a path that returns Pending", floor=1)
+    from p_C11 import takepend_rule
+    takepend_rule(ctx, c, R_TP, set(i.get("self_adt") for i in push_impls if i.get("self_adt")), "dfir_pipes")
 
 
 def item_groups(c, impls):
